@@ -207,10 +207,16 @@ func (c *cntRS) Seek(o int64, w int) (int64, error) { c.seeks++; return c.rs.See
 
 // withWatchdog runs f; false means it did not return within d.
 func withWatchdog(d time.Duration, f func()) bool {
-	done := make(chan struct{})
-	go func() { defer close(done); f() }()
+	done := make(chan interface{}, 1)
+	go func() {
+		defer func() { done <- recover() }()
+		f()
+	}()
 	select {
-	case <-done:
+	case p := <-done:
+		if p != nil {
+			panic(p) // re-raised in the caller's goroutine, where the per-scenario recover sees it
+		}
 		return true
 	case <-time.After(d):
 		return false
